@@ -231,7 +231,15 @@ def semantic_cases():
                    ("g=1", lambda p, g, y: (p, 1, y)),
                    ("p=tiny", lambda p, g, y: (23, 5, 8)),
                    ("p=0", lambda p, g, y: (0, g, y)),
-                   ("p=even", lambda p, g, y: (p + 1, g, y))):
+                   ("p=even", lambda p, g, y: (p + 1, g, y)),
+                   # primes far beyond any key size policy: the work done
+                   # with them must stay bounded
+                   ("p=8200-bits", lambda p, g, y: ((1 << 8199) + 1, 2, 3)),
+                   ("p=65535-bytes", lambda p, g, y: ((1 << 524279) + 1, 2,
+                                                      3)),
+                   ("p=65535-bytes-Ys-large",
+                    lambda p, g, y: ((1 << 524279) + 1, 2,
+                                     (1 << 524278) + 5))):
         C.append(("ske-dh-" + nm, "DH_anon", "C", "SKE", ske_dh(fn)))
         C.append(("ske-dhe-" + nm, "DHE_RSA", "C", "SKE", ske_dh(fn)))
 
